@@ -86,7 +86,22 @@ func (c ColumnType) Base() ColumnType {
 
 // reduces Decimal(P, ...) to Decimal32/Decimal64/Decimal128/Decimal256
 // returns c if any errors occur during conversion
+// isDecimal reports whether c is Decimal or one of its fixed-width aliases.
+func (c ColumnType) isDecimal() bool {
+	switch c {
+	case ColumnTypeDecimal, ColumnTypeDecimal32, ColumnTypeDecimal64, ColumnTypeDecimal128, ColumnTypeDecimal256:
+		return true
+	default:
+		return false
+	}
+}
+
 func (c ColumnType) decimalDowncast() ColumnType {
+	switch b := c.Base(); b {
+	case ColumnTypeDecimal32, ColumnTypeDecimal64, ColumnTypeDecimal128, ColumnTypeDecimal256:
+		// DecimalN(S) is DecimalN with explicit scale.
+		return b
+	}
 	if c.Base() != ColumnTypeDecimal {
 		return c
 	}
@@ -124,7 +139,7 @@ func (c ColumnType) Conflicts(b ColumnType) bool {
 		(bBase == ColumnTypeEnum16 && c == ColumnTypeInt16) {
 		return false
 	}
-	if cBase == ColumnTypeDecimal || bBase == ColumnTypeDecimal {
+	if cBase.isDecimal() || bBase.isDecimal() {
 		return c.decimalDowncast() != b.decimalDowncast()
 	}
 
